@@ -89,6 +89,8 @@ void w_use_player()
     q = cp;
     (void)r.current_state();
     r.start(); r.process_event(stop()); r.stop();
+    r.start(play());                            // start(Event) overload
+    r.stop(stop());                             // stop(Event) overload
 }
 
 template <class D3>
@@ -107,7 +109,7 @@ void w_use_depth3()
     m.stop();                                   // exits Playing's substate, Playing, player, then Root3
     typename D3::Root3 c(static_cast<const typename D3::Root3&>(m));
     c = m;
-    c.start(); c.stop();
+    c.start(w_enter()); c.stop(w_leave());
 }
 
 template void w_use_player<hierarchical_state_machine<boost::msm::back::state_machine>>();
